@@ -4,6 +4,14 @@ import json, sys
 
 ENGINE = "gsx"
 CHECKS = {
+ "C21": dict(
+   text="Client-side response handling is executed symbolically against scripted responses of every decoder-producible shape: node helpers through a scripted ClientInterface; client and subscription calls over a real secure channel opened inside the executor against the repository's own server-side channel. Every Go run-time panic is an obligation.",
+   note="Found and fixed: unchecked type assertions and result indexing in node.go and subscription.go. Connect/reconnect paths, history reads and the monitor package are outside. Trusted: go/ssa, gsx, z3.",
+   ref="DESIGN.md §5 C21"),
+ "C26": dict(
+   text="Kernel: one inductive step of the publish loop with symbolic pending acknowledgements, result codes, subscription id and notification shape, run through the real publish path over a real channel; the pending-acknowledgement list after the step is compared with the Part 4 rule.",
+   note="Only the acknowledgement kernel is decided; reconnect / republish / recreate under faults is outside the claim. Trusted: go/ssa, gsx, z3.",
+   ref="DESIGN.md §5 C26"),
  "C18": dict(
    text="The real request path (SendRequestWithTimeout, sendAsyncWithTimeout, the dispatcher goroutine, Receive, popHandler) runs inside the symbolic executor against a scripted peer over a modelled pipe; request ids in responses are symbolic, two concurrent callers and the dispatcher are explored under every schedule with a bounded number of preemptions.",
    note="Kernel + bounded schedules (<= 2/3 preemptions, <= 2 callers, policy None). Trusted: go/ssa, gsx goroutine interpretation, cvc5.",
@@ -115,9 +123,7 @@ CHECKS = {
 }
 NOT_APPLICABLE = {
  "C08": "needs an independent Part 6 layout implementation in the harness compared byte for byte through the uninterpreted primitives; expressible with the engine but not built in this revision (DESIGN §6); C07 only sees layout errors that break gopcua-to-gopcua traffic",
- "C21": "client response handling is reachable only through SecureChannel.SendRequest with a live dispatcher; from package opcua this needs a full scripted OpenSecureChannel exchange inside the executor, which was not built (DESIGN §6)",
  "C22": "as C21 plus a secured channel with a scripted signing peer; the suspected defect (CreateSession swallows the signature error) is described in DESIGN §6 but not decided by a check",
- "C26": "reconnect fault sequences are outside the technique; the acknowledgement kernel needs the publish loop with a transport stub, not built (DESIGN §6)",
  "C27": "all interleavings of the publish loop with API callers: the bounded-preemption explorer exists (C11) but the harness with the loop and its transport stub was not built (DESIGN §6)",
  "C28": "needs the monitor/subscription pump driven through ClientInterface stubs plus the server queue under schedules; not built (DESIGN §6)",
  "C30": "needs the enabled policy/mode set threaded from server options to the OpenSecureChannel handling inside one harness; not built, the suspected defect is described in DESIGN §6 but not decided",
